@@ -1,5 +1,7 @@
 import AndaVerif.Proofs.TxEnv
 import AndaVerif.Proofs.TxTime
+import AndaVerif.Model.TxQuery
+import AndaVerif.Gen.QueryForms
 /-
 C18 — Reading AS OF a past point returns what was current then.
 
@@ -50,6 +52,102 @@ theorem purged_has_no_past (pre suf : List Stmt) (i : Id) (hi : i ∈ erasedRun 
   unfold asOf
   rw [hlog, elementAt_skip_newer extra _ i _ hnew, elementAt_eraseAll_self _ _ i _ hi]
   rfl
+
+theorem candidates_congr {v w : View} {ids : List Id} (h : ∀ i ∈ ids, v i = w i) (pat : Id → Elem → Bool) :
+    candidates v ids pat = candidates w ids pat := by
+  unfold candidates
+  apply List.filter_congr
+  intro i hi
+  rw [h i hi]
+
+theorem linksOf_congr {v w : View} {ids : List Id} (h : ∀ i ∈ ids, v i = w i) : linksOf v ids = linksOf w ids := by
+  unfold linksOf
+  induction ids with
+  | nil => rfl
+  | cons i r ih =>
+      simp only [List.filterMap_cons]
+      rw [h i List.mem_cons_self, ih (fun j hj => h j (List.mem_cons_of_mem _ hj))]
+
+
+/-- **An AS OF answer ignores every later write.** Any read that is a function of what the view shows of
+a set of elements — every WHERE form is: its candidates at a coordinate come from `elements_at`, never
+from a present-day index (`gen_historical_candidates`) — returns, bound to the coordinate of a past point
+and evaluated on the *final* version log, exactly what it returned when that point was the present; for
+every later history of statements of every kind and outcome that destroyed none of those elements'
+versions. In particular two different futures give the same answer. -/
+theorem asof_ignores_later_writes {α : Type} (Q : List (Id × Option Elem) → α) (pre suf : List Stmt) (ids : List Id)
+    (hkeep : ∀ i ∈ ids, i ∉ erasedRun (run Store.init pre) suf) :
+    Q (ids.map (fun i => (i, asOf (run (run Store.init pre) suf) i (run Store.init pre).seq))) =
+      Q (ids.map (fun i => (i, current (run Store.init pre) i))) ∧
+    Gen.QueryForms.historicalCandidatesFromVersionLog = true := by
+  refine ⟨?_, Gen.QueryForms.gen_historical_candidates⟩
+  congr 1
+  apply List.map_congr_left
+  intro i hi
+  rw [as_of_is_then pre suf i (hkeep i hi)]
+
+theorem asof_same_in_every_future {α : Type} (Q : List (Id × Option Elem) → α) (pre suf₁ suf₂ : List Stmt) (ids : List Id)
+    (h₁ : ∀ i ∈ ids, i ∉ erasedRun (run Store.init pre) suf₁) (h₂ : ∀ i ∈ ids, i ∉ erasedRun (run Store.init pre) suf₂) :
+    Q (ids.map (fun i => (i, asOf (run (run Store.init pre) suf₁) i (run Store.init pre).seq))) =
+      Q (ids.map (fun i => (i, asOf (run (run Store.init pre) suf₂) i (run Store.init pre).seq))) := by
+  rw [(asof_ignores_later_writes Q pre suf₁ ids h₁).1, (asof_ignores_later_writes Q pre suf₂ ids h₂).1]
+
+/-- **Historical candidates.** The candidates of an element pattern, the links a tuple pattern or a
+one-hop step may use, the answer of a tuple pattern and the answer of a hop-quantified path pattern
+`(?a, "p"{m,n}, ?b)` (any predicates, either direction, any range, any start nodes — a fold of one-hop
+neighbour steps over the links that are active **at the coordinate**), read at the coordinate of a past
+point from the final version log, are what they were at that point: a link or a Concept archived,
+tombstoned, merged, retracted or edited later still carries the walk there, and one removed before the
+point is still missing. -/
+theorem path_as_of_is_then (pre suf : List Stmt) (ids : List Id)
+    (hkeep : ∀ i ∈ ids, i ∉ erasedRun (run Store.init pre) suf) :
+    let then_ : View := current (run Store.init pre)
+    let asof : View := fun i => asOf (run (run Store.init pre) suf) i (run Store.init pre).seq
+    (∀ pat, candidates asof ids pat = candidates then_ ids pat) ∧
+    linksOf asof ids = linksOf then_ ids ∧
+    (∀ p, tupleAnswer asof ids p = tupleAnswer then_ ids p) ∧
+    (∀ ps fwd m n starts, pathAnswer asof ids ps fwd m n starts = pathAnswer then_ ids ps fwd m n starts) := by
+  intro then_ asof
+  have hv : ∀ i ∈ ids, asof i = then_ i := fun i hi => as_of_is_then pre suf i (hkeep i hi)
+  have hl := linksOf_congr hv
+  refine ⟨fun pat => candidates_congr hv pat, hl, fun p => ?_, fun ps fwd m n starts => ?_⟩
+  · unfold tupleAnswer; rw [hl]
+  · unfold pathAnswer; rw [hl]
+
+/-- Non-vacuity: a chain C1 → C2 → C3 → C4 of `same_as` (7) links; later the middle link P2 is archived
+and C4 tombstoned. The walk `{1,3}` from C1 read at the coordinate before the removals (from the final
+log) still reaches C2, C3, C4; the present reaches C2 only; `{2,}` and the backward walk likewise. -/
+example :
+    let c (n : Nat) : Id := ⟨.concept, n⟩
+    let pre : List Stmt := [
+      { dry := false, clauses := [.createConcept 1 1 1 1 false, .createConcept 2 1 2 2 false, .createConcept 3 1 3 3 false,
+          .createConcept 4 1 4 4 false] },
+      { dry := false, clauses := [.ensure none (.id (c 1)) 7 (.id (c 2)) none false, .ensure none (.id (c 2)) 7 (.id (c 3)) none false,
+          .ensure none (.id (c 3)) 7 (.id (c 4)) none false] }]
+    let suf : List Stmt := [
+      { dry := false, clauses := [.setState (.id ⟨.proposition, 2⟩) .archived none] },
+      { dry := false, clauses := [.setState (.id (c 4)) .tombstoned none] }]
+    let ids : List Id := [⟨.proposition, 1⟩, ⟨.proposition, 2⟩, ⟨.proposition, 3⟩]
+    let fin := run (run Store.init pre) suf
+    let asof : View := fun i => asOf fin i (run Store.init pre).seq
+    pathAnswer asof ids [7] true 1 (some 3) [c 1] = [(c 1, c 2), (c 1, c 3), (c 1, c 4)] ∧
+    pathAnswer (current fin) ids [7] true 1 (some 3) [c 1] = [(c 1, c 2)] ∧
+    pathAnswer asof ids [7] true 2 none [c 1] = [(c 1, c 3), (c 1, c 4)] ∧
+    pathAnswer (current fin) ids [7] true 2 none [c 1] = [] ∧
+    pathAnswer asof ids [7] false 1 (some 2) [c 4] = [(c 4, c 3), (c 4, c 2)] ∧
+    pathAnswer asof ids [7] true 0 (some 1) [c 2] = [(c 2, c 2), (c 2, c 3)] ∧
+    tupleAnswer asof ids 7 = [(c 1, c 2), (c 2, c 3), (c 3, c 4)] ∧
+    tupleAnswer (current fin) ids 7 = [(c 1, c 2), (c 3, c 4)] ∧
+    erasedRun (run Store.init pre) suf = [] := by decide
+
+/-- **No query form is outside the then-vs-AS-OF comparison.** Every `WhereClause` variant the KQL
+evaluator dispatches on in the current source (`Gen.QueryForms.queryForms`, regenerated on every run) is
+exercised by the battery the harness records at every coordinate and replays `AS OF SEQ / TX / TIME`
+(`batteryForms`: read from the harness source, which verifies the claim against its own queries with the
+real parser at start-up); the battery claims no form the engine lacks. -/
+theorem query_forms_covered :
+    (∀ f ∈ Gen.QueryForms.queryForms, f ∈ Gen.QueryForms.batteryForms) ∧
+    (∀ f ∈ Gen.QueryForms.batteryForms, f ∈ Gen.QueryForms.queryForms) := by decide
 
 /-- The schema environment of a past point: for every history of statements **and schema
 activations**, every point `k` of it and every later suffix (further statements, further
